@@ -38,6 +38,7 @@ import Arca.Model.Lockset
 import Arca.Gen.Access
 import Arca.Gen.Unknown
 import Arca.Expected.Access
+import Arca.Gen.Frame
 
 namespace Arca.Props.C17
 open Arca.Gen Arca.Expected Arca.Model.Lockset
@@ -197,5 +198,10 @@ example : accessExceptions.all (fun e => !(e.file == pluginFile && e.field == "c
 -- some functions really are entered with the lock held, and the fixpoint is not the trivial all-false assignment
 example : entryLocked wfFile "loopState.notifySteps" = true ∧ entryLocked pluginFile "runningStep.cancelStep" = true ∧
     entryLocked pluginFile "runningStep.closedEarly" = false := by decide +kernel
+
+/-- Objects outside the access table that overlapping runs share: the one-of / optional expression objects of internal/infer
+    stored in the prepared workflow's DAG items.  The run loop calls their methods under the per-run lock only, so they must
+    be read-only: no method assigns through its receiver (regenerated from internal/infer on every run). -/
+theorem shared_expression_objects_are_read_only : Arca.Gen.sharedExprReceiverWrites = [] := by decide
 
 end Arca.Props.C17
